@@ -46,14 +46,14 @@ func (fr *frame) get(v ssa.Value) Value {
 	case *ssa.Global:
 		return fr.m.global(v)
 	}
-	if i, ok := fr.fi.idx[v]; ok {
+	if i, ok := fr.fi.idx[vptr(v)]; ok {
 		return fr.regs[i]
 	}
 	panic(fmt.Sprintf("get: no register for %T %s in %s", v, v.Name(), fr.fn))
 }
 
 func (fr *frame) set(v ssa.Value, x Value) {
-	fr.regs[fr.fi.idx[v]] = x
+	fr.regs[fr.fi.idx[vptr(v)]] = x
 }
 
 func (m *Machine) global(g *ssa.Global) *Value {
@@ -212,7 +212,7 @@ func (m *Machine) callSSA(caller *frame, fn *ssa.Function, args []Value, env []V
 		fr.locals = make([]Value, len(fn.Locals))
 		for i, l := range fn.Locals {
 			fr.locals[i] = zero(deref(l.Type()))
-			fr.regs[fi.idx[l]] = &fr.locals[i]
+			fr.regs[fi.idx[vptr(l)]] = &fr.locals[i]
 		}
 	}
 	fr.block = fn.Blocks[0]
@@ -695,11 +695,7 @@ func (m *Machine) interpretable(fn *ssa.Function) bool {
 		}
 		return false
 	}
-	switch fn.Pkg.Pkg.Path() {
-	case "sort", "errors", "math/bits", "internal/reflectlite", "slices", "cmp":
-		return true
-	}
-	return false
+	return interpretablePkgs[fn.Pkg.Pkg.Path()]
 }
 
 func appendUnique(xs []string, s string) []string {
